@@ -56,6 +56,7 @@ func cmdVC(args []string) {
 	tmo := fs.Int("t", 10, "timeout seconds")
 	only := fs.String("only", "", "only obligations whose name contains this")
 	all := fs.Bool("all", false, "all functions under contract")
+	verbose := fs.Bool("v", false, "print every probed atom of counterexamples")
 	fs.Parse(args)
 	E, err := newEngine()
 	if err != nil {
@@ -102,13 +103,13 @@ func cmdVC(args []string) {
 			}
 			fmt.Printf("  %-8s %s  [%s %.1fs] %s  -- %s\n", r.Status, o.Name, r.Solver, r.Seconds, o.Pos, o.Text)
 			if r.Status == "sat" {
-				var ks []string
-				for k := range r.Model {
-					ks = append(ks, k)
+				for _, in := range o.enc.inputs {
+					fmt.Printf("      %s = %s\n", in, r.Model[in])
 				}
-				sort.Strings(ks)
-				for _, k := range ks {
-					fmt.Printf("      %s = %s\n", k, r.Model[k])
+				if *verbose {
+					for _, k := range sortedAtoms(r.Model) {
+						fmt.Printf("        %s = %s\n", k, r.Model[k])
+					}
 				}
 			} else if r.Status == "error" {
 				fmt.Printf("      %s (%s)\n", firstLines(r.Output, 3), r.File)
